@@ -17,6 +17,14 @@ CLAIMS = {
             "and the stop-on-ACK/RST rule are asserted. Bounded (integer time, MAX_RETRANSMIT<=6), not a proof.",
             "SimLoop virtual time; random.uniform replaced by an explicit draw; fake token manager / message interface / datagram transport; CrossHair+z3",
             TECH_E1, "DESIGN.md 5 C03"),
+    "C01": ("Differential symbolic execution of Message/Options/option-type encode and decode against a reference RFC 7252 "
+            "section 3 codec: extended delta/length fields for all values 0..70000, uint/block/string/content-format value codecs, "
+            "every option area of 1-2 (3) bytes, single options of every catalogue number with symbolic value bytes, whole messages "
+            "with symbolic type/MID/token/payload and option pairs by index, all header bytes, and every single-byte "
+            "replacement/insertion/truncation of three valid datagrams; only UnparsableMessage may leave the parser and parsed "
+            "messages must round-trip. BlockOption.decode is additionally translated to z3 bit-vectors (E2).",
+            "reference codec vf/refcodec.py written from the RFC; byte-string lengths concrete per obligation; option numbers by index or pre-populated enum ranges; CPython UTF-8 codec trusted",
+            TECH_E1 + "; AST->z3 bit-vector translation for BlockOption.decode", "DESIGN.md 5 C01"),
     "C14": ("From every symbolic pre-state (per remote: exchange open, retransmitted once, 0..2 queued) built through the real "
             "send_message API, every event sequence of depth 2 (quick) / 3 (thorough) over 14 event kinds is explored on the real "
             "MessageManager and compared step by step with a reference NSTART=1 queue model (wire log identity and order, failure "
